@@ -31,6 +31,25 @@ type gcWorld struct {
 	step     int
 	rel      ecs.ID
 	targets  map[ecs.Entity]ecs.Entity
+	// a Builder with a pointer-carrying value, kept over several steps (and collections) before and between its uses
+	keptB    *ecs.Builder
+	keptName string
+	keptIDs  []uint64
+}
+
+// dropBuilder forgets the kept Builder; what only it referenced may be collected from now on.
+func (g *gcWorld) dropBuilder() {
+	for _, id := range g.keptIDs {
+		if n, ok := g.tracked[id]; ok {
+			if n <= 1 {
+				delete(g.tracked, id)
+				g.released = append(g.released, id)
+			} else {
+				g.tracked[id] = n - 1
+			}
+		}
+	}
+	g.keptB, g.keptIDs = nil, nil
 }
 
 var canarySeq atomic.Uint64
@@ -447,6 +466,27 @@ func (g *gcWorld) opCreate(typedOnly bool) {
 		e := w.NewEntityWith(ecs.Component{ID: id, Comp: v})
 		g.attach(e, name, ids, true)
 	case 2: // NewBuilderWith(...).New
+		if g.keptB != nil {
+			// the Builder made some steps ago: every entity it creates gets a copy of the value it was given
+			e := g.keptB.New()
+			g.setPlain(e, "V2", true)
+			g.attach(e, g.keptName, g.keptIDs, true)
+			g.cov.N["kept_builder_uses"]++
+			if r.Chance(0.3) {
+				g.dropBuilder()
+			}
+			return
+		}
+		if r.Chance(0.5) {
+			v, ids := g.mkValue(name)
+			g.keptB = ecs.NewBuilderWith(w, ecs.Component{ID: id, Comp: v}, ecs.Component{ID: g.ids["V2"], Comp: &V2{1, 2}})
+			g.keptName, g.keptIDs = name, ids
+			for _, cid := range ids {
+				g.tracked[cid]++
+			}
+			g.cov.N["kept_builders"]++
+			return
+		}
 		v, ids := g.mkValue(name)
 		e := ecs.NewBuilderWith(w, ecs.Component{ID: id, Comp: v}, ecs.Component{ID: g.ids["V2"], Comp: &V2{1, 2}}).New()
 		g.setPlain(e, "V2", true)
@@ -907,6 +947,7 @@ func caseC14(c *Ctx) {
 	if len(g.viol) == 0 && mode == "r1" {
 		// everything released at the end must be collectable
 		g.w.Reset()
+		g.dropBuilder()
 		for e := range g.model {
 			g.dropEntity(e)
 		}
